@@ -61,7 +61,7 @@ var Props = []PropInfo{
 		NotDecided:  "step-by-step refinement of concrete histories; tie-break at equal timestamps (left open by the statement).",
 		Assumptions: trust("igrmk/treemap semantics")},
 	{ID: "C05",
-		Explanation: "Structural necessary conditions of author isolation: no stored key lacks an author/id component (KEY-CLASS); the removal of an entry is edge-dominated by the pubkey equality test (DEL-AUTH); every deletion-registry key is built with the Pubkey of the event being inserted / the kind-5 event / the victim itself, never a tag value or constant (REG-KEY); registration precedes delete-by-reference and the registry is cleaned when a kind-5 event leaves (REG-COUPD); every id-domain probe can reach address-keyed classes (KEY-DOM); tag value reads accept arity >= 2 (TAG-ARITY).",
+		Explanation: "Structural necessary conditions of author isolation: no stored key lacks an author/id component (KEY-CLASS); the removal of an entry is edge-dominated by the pubkey equality test (DEL-AUTH); every deletion-registry key is built with the Pubkey of the event being inserted / the kind-5 event / the victim itself, never a tag value or constant (REG-KEY); registration precedes delete-by-reference and the registry is cleaned when a kind-5 event leaves (REG-COUPD); every id-domain probe can reach address-keyed classes (KEY-DOM); tag value reads accept arity >= 2 (TAG-ARITY); a deletion reference is taken apart by its first two colons only (ADDR-CUT).",
 		NotDecided:  "eviction interplay over histories; replaceable events referenced by an 'a' tag.",
 		Assumptions: trust()},
 	{ID: "C06",
@@ -73,7 +73,7 @@ var Props = []PropInfo{
 		NotDecided:  "exactly-once / real-time-order delivery over interleavings; drop counts under back-pressure.",
 		Assumptions: trust("sync.RWMutex semantics")},
 	{ID: "C08",
-		Explanation: "Structural necessary conditions of merged REQ: state objects live in 1-slot token channels with paired acquire/deferred release and no blocking in between (TOK); per-request state is allocated before the message is broadcast to the children (SLOT-BEFORE-BCAST); the four per-subscription maps are set and cleared together (REQ-COUPD); the pre-EOSE forwarding test contains the order guard with the right orientation, the seen-set consult+update, Done and the counting matcher (MERGE-GUARDS); the EOSE is forwarded only behind not-all-done, mark(subID, idx), all-done in that order (EOSE-GATE); forwarded values are the child's own message and each typed handler is called from its own clause (FWD-ID / DISPATCH).",
+		Explanation: "Structural necessary conditions of merged REQ: state objects live in 1-slot token channels with paired acquire/deferred release and no blocking in between (TOK); per-request state is allocated before the message is broadcast to the children (SLOT-BEFORE-BCAST); the four per-subscription maps are set and cleared together (REQ-COUPD); the pre-EOSE forwarding test contains the order guard with the right orientation, the seen-set consult+update, Done and the counting matcher (MERGE-GUARDS); the EOSE is forwarded only behind not-all-done, mark(subID, idx), all-done in that order (EOSE-GATE); forwarded values are the child's own message and each typed handler is called from its own clause, and the state-changing dispatcher runs once per message received from the children (FWD-ID / DISPATCH).",
 		NotDecided:  "'exactly one EOSE, after all children' as a temporal fact over interleavings.",
 		Assumptions: trust()},
 	{ID: "C09",
@@ -90,7 +90,7 @@ var Props = []PropInfo{
 		Assumptions: trust("regexp/syntax parses the pattern as regexp does")},
 	{ID: "C12",
 		Explanation: "Structural necessary conditions of the WebSocket gate: the pass edges of text-frame, utf8.Valid, json.Valid, ParseClientMsg err==nil, ValidClientMsg, and for EVENT Verify err==nil and true each edge-dominate the single send on the handler's inbound channel, and the forwarded value is the parse result (GATE-CHAIN); every entry→return path either forwards (no notice) or sends exactly one server message or fails the connection (GATE-ONE-NOTICE); nobody else sends on or closes that channel (RECV-OWNER); every value received from send flows through json.Marshal to one conn.Write with MessageText (WRITE-PATH); dispatch admits leading whitespace (DISPATCH-WS). The validity verdict the gate relies on is the C11 rule set (VAL-DOM, VAL-SLICE, VAL-EXH, NADDR-SPLIT, DISPATCH-WS): 'invalid field ⇒ one rejection, valid frame ⇒ delivered' cannot hold if a validator accepts or refuses the wrong values.",
-		NotDecided:  "the WebSocket library; frame-level behaviour.",
+		NotDecided:  "the WebSocket library; frame-level behaviour; whether a refusal placed in front of the parser (a cheap door check on the raw bytes) refuses only frames the parser would refuse — seed C12-i (seeded-missed/) is such a check that also refuses valid frames, and is not reported.",
 		Assumptions: trust("coder/websocket Read/Write semantics")},
 	{ID: "C13",
 		Explanation: "Structural necessary conditions of termination/release: every channel operation in the three library packages is discharged by a cancel-aware select, a bounded-buffer argument, a token channel, a join on own goroutines, or range-after-close (CHAN-DISC); goroutines defer cancel (GO-CANCEL); for-loops in session code can leave on ctx.Done (LOOP-EXIT); context-taking calls receive a context derived from the caller's (CTX-PASS), and the goroutines of a function that cancels its own derived context on return block only under that context (GO-CTX); a cached copy of the subscriber table is invalidated on the session-end path as on every other writer (MEMO-COHERENT); a deferred join is preceded (in run order) by a cancel (JOIN-ORDER); inbound receives are comma-ok and return on close (RECV-OK); child inbound channels are closed by their sender (CHILD-CLOSE); UnsubscribeAll and ServeNostrEnd are deferred (UNSUB-ALL, START-END); every WebSocket write/ping without deadline is controlled by SendTimeout only (WS-DEADLINE).",
@@ -105,7 +105,7 @@ var Props = []PropInfo{
 		NotDecided:  "the sequential specification itself (C03/C04); absence of races in third-party code.",
 		Assumptions: trust("sync.Mutex/RWMutex semantics")},
 	{ID: "C16",
-		Explanation: "Structural necessary conditions of storage-handler replies: per client-message clause of each base the multiset and order of reply constructors on every path equals the statement's table, labelled with the request's id; cache OK is accepting on Add's true edge and a duplicate-prefixed rejection otherwise (REPLY-TAB, LABEL); in SimpleHandler the next inbound receive is reachable from the reply drain only through its closed edge (LOOP-ORDER); Dump queries with an empty filter and Restore inserts only through Add (DUMP-ALL); reply channel capacities bound the sends (CHAN-DISC/DR2); the store query that produces a REQ's events tests the presence of a list condition by nil-ness, never by length (FLT-NIL).",
+		Explanation: "Structural necessary conditions of storage-handler replies: per client-message clause of each base the multiset and order of reply constructors on every path equals the statement's table, labelled with the request's id; cache OK is accepting on Add's true edge and a duplicate-prefixed rejection otherwise (REPLY-TAB, LABEL); in SimpleHandler the next inbound receive is reachable from the reply drain only through its closed edge (LOOP-ORDER); Dump queries with an empty filter and Restore inserts only through Add (DUMP-ALL); reply channel capacities bound the sends (CHAN-DISC/DR2); the store query that produces a REQ's events tests the presence of a list condition by nil-ness, never by length (FLT-NIL); the listing Dump is made from walks the whole retained set from its newest end and stops only at the filter's own limit (SCAN-FULL, SCAN-LIMIT).",
 		NotDecided:  "dump/restore answer equality for all cache states.",
 		Assumptions: trust()},
 	{ID: "C17",
